@@ -983,6 +983,61 @@ func ruleWireTally(w *World, r *RuleResult) {
 		}
 	}
 	pos := w.Pos(main.Pos())
+	// ... or one Printf in a loop over a list of per-warrior counters made in main: line k+1 prints
+	// the two counters of element k
+	if len(printed) != 2 {
+		for _, p := range paths {
+			if p.End != "backedge" {
+				continue
+			}
+			for i := range p.Events {
+				e := &p.Events[i]
+				if !(e.Kind == "call" && e.Callee != nil && fnKey(e.Callee) == "fmt.Printf" && len(e.Args) == 2 && e.Args[0].Op == "str" && strings.Count(e.Args[0].S, "%d") == 2) {
+					continue
+				}
+				els := elementsOf(p, e.Args[1])
+				var cells [2]*T
+				ok := true
+				for k := 0; k < 2; k++ {
+					x := els[fmt.Sprintf("[%d]", k)]
+					if x == nil {
+						ok = false
+						break
+					}
+					x = stripConv(x)
+					if x.Op == "iface" {
+						x = stripConv(x.A[0])
+					}
+					cells[k] = x
+				}
+				if !ok || cells[0].Op != "sel" || cells[1].Op != "sel" || cells[0].A[0].Op != "elem" || cells[0].A[0].Key() != cells[1].A[0].Key() {
+					continue
+				}
+				el := cells[0].A[0]
+				list, idx := stripConv(el.A[0]), stripConv(el.A[1])
+				li := linearOf(idx)
+				var lv *T
+				for _, at := range li.Atom {
+					lv = at
+				}
+				if list.Op != "makeslice" || len(li.Atom) != 1 || lv.Op != "loopvar" {
+					continue
+				}
+				init, step, okv := loopVarInfo(w, main, p, lv)
+				if !okv || step != 1 || !init.IsConst() || init.C+li.Const != 0 {
+					continue // not an ascending walk from element 0
+				}
+				printed = nil
+				for k := int64(0); k < 2; k++ {
+					elk := &T{Op: "elem", A: []*T{list, tconst(k, idx.Ty)}, Ty: el.Ty}
+					printed = append(printed, []*T{
+						{Op: "sel", S: cells[0].S, A: []*T{elk}, Ty: cells[0].Ty},
+						{Op: "sel", S: cells[1].S, A: []*T{elk}, Ty: cells[1].Ty},
+					})
+				}
+			}
+		}
+	}
 	if len(printed) != 2 || printed[0][0] == nil || printed[1][0] == nil {
 		r.undecided("print", pos, "could not find the two result lines (Printf with two %d)")
 		return
@@ -1043,6 +1098,16 @@ func ruleWireTally(w *World, r *RuleResult) {
 		}
 		if x.Op == "sel" && (root.Op == "new" || root.Op == "alloc") {
 			return "mem:" + stripEpoch(x).Key()
+		}
+		// a field of a constant element of a list made in main
+		if x.Op == "sel" && root.Op == "elem" && stripConv(root.A[0]).Op == "makeslice" && stripConv(root.A[1]).IsConst() {
+			path := ""
+			for y := x; y.Op == "sel"; y = y.A[0] {
+				path = "." + y.S + path
+			}
+			// (the list is named by its element type and length expression: allocation numbers differ from path to path)
+			ms := stripConv(root.A[0])
+			return fmt.Sprintf("mem:make(%s,%s)[%d]%s", typeName(ms.Ty), stripEpoch(ms.A[0]).Key(), stripConv(root.A[1]).C, path)
 		}
 		return ""
 	}
@@ -1107,7 +1172,11 @@ func ruleWireTally(w *World, r *RuleResult) {
 			if e.Kind != "store" || e.LV.Op != "sel" {
 				continue
 			}
-			if ros, ok := names["mem:"+stripEpoch(e.LV).Key()]; ok {
+			ck := counterKey(e.LV)
+			if !strings.HasPrefix(ck, "mem:") {
+				ck = "mem:" + stripEpoch(e.LV).Key()
+			}
+			if ros, ok := names[ck]; ok {
 				l := linearOf(e.Val)
 				for _, ro := range ros {
 					if len(l.Coef) != 1 {
